@@ -69,7 +69,7 @@ func RenameArgumentsAction(newNames []string) RewriteAction {
 //   - the argument is not an array
 func ArrayToAppendAction() RewriteAction {
 	return func(_ ast.Schemas, _ ast.Builder, option ast.Option) []ast.Option {
-		if len(option.Args) != 1 || !option.Args[0].Type.IsArray() {
+		if len(option.Args) != 1 || !option.Args[0].Type.IsArray() || len(option.Assignments) == 0 {
 			return []ast.Option{option}
 		}
 
@@ -130,7 +130,7 @@ func ArrayToAppendAction() RewriteAction {
 //   - the argument is not a map
 func MapToIndexAction() RewriteAction {
 	return func(_ ast.Schemas, _ ast.Builder, option ast.Option) []ast.Option {
-		if len(option.Args) != 1 || !option.Args[0].Type.IsMap() {
+		if len(option.Args) != 1 || !option.Args[0].Type.IsMap() || len(option.Assignments) == 0 {
 			return []ast.Option{option}
 		}
 
@@ -236,7 +236,7 @@ func StructFieldsAsArgumentsAction(explicitFields ...string) RewriteAction {
 			}
 		}
 
-		if !firstArgType.IsStruct() {
+		if !firstArgType.IsStruct() || len(option.Assignments) == 0 || len(option.Assignments[0].Path) == 0 {
 			return []ast.Option{option}
 		}
 
@@ -398,7 +398,7 @@ func StructFieldsAsOptionsAction(explicitFields ...string) RewriteAction {
 			}
 		}
 
-		if !firstArgType.IsStruct() {
+		if !firstArgType.IsStruct() || len(option.Assignments) == 0 {
 			return []ast.Option{option}
 		}
 
@@ -468,7 +468,7 @@ func StructFieldsAsOptionsAction(explicitFields ...string) RewriteAction {
 //   - the given argument is not a disjunction or a reference to one
 func DisjunctionAsOptionsAction(argumentIndex int) RewriteAction {
 	return func(schemas ast.Schemas, builder ast.Builder, option ast.Option) []ast.Option {
-		if len(option.Args) == 0 {
+		if argumentIndex < 0 || argumentIndex >= len(option.Args) {
 			return []ast.Option{option}
 		}
 
@@ -625,6 +625,10 @@ type BooleanUnfold struct {
 //	```
 func UnfoldBooleanAction(unfoldOpts BooleanUnfold) RewriteAction {
 	return func(_ ast.Schemas, _ ast.Builder, option ast.Option) []ast.Option {
+		if len(option.Assignments) == 0 || len(option.Assignments[0].Path) == 0 {
+			return []ast.Option{option}
+		}
+
 		intoType := option.Assignments[0].Path.Last().Type
 
 		if !intoType.IsScalar() || intoType.Scalar.ScalarKind != ast.KindBool {
